@@ -17,7 +17,7 @@ for m in sorted(glob.glob("/verif/seeded-negative/*/meta.json")):
     if only and name not in only:
         continue
     base = d["applies_to"]
-    wt = "/tmp/neg-wt" + os.environ.get("NEG_WT_SUFFIX", "")
+    wt = "/tmp/neg-wt" + os.environ.get("NEG_WT_SUFFIX", "-%d" % os.getpid())
     subprocess.run(["git", "-C", "/repo", "worktree", "remove", "--force", wt], capture_output=True)
     subprocess.run(["git", "-C", "/repo", "worktree", "add", "--detach", wt, base], capture_output=True, check=True)
     try:
